@@ -119,6 +119,19 @@ theorem ref_op_eq_lognot (m : Nat) (a : Val) (c : Ctr) (hw : a.wf = true) (hp : 
 theorem ref_op_eq_not (m : Nat) (a : Val) (c : Ctr) (hw : a.wf = true) (hp : Proper a) :
     OpAgree m (Interp.opNot 0 m a c) (Ref.opNot a.erase) := opNot_agree m a c hw hp
 
+/-- `/` against the reference's `op_div` **through `Adapter.floorDiv`** -/
+theorem ref_op_eq_div (m : Nat) (a : Val) (c : Ctr) (hw : a.wf = true) (hp : Proper a) :
+    OpAgree m (Interp.opDiv 0 m a c) (Adapter.floorDiv a.erase) := opDiv_agree m a c hw hp
+
+theorem ref_op_eq_divmod (m : Nat) (a : Val) (c : Ctr) (hw : a.wf = true) (hp : Proper a) :
+    OpAgree m (Interp.opDivmod 0 m a c) (Ref.opDivmod a.erase) := opDivmod_agree m a c hw hp
+
+theorem ref_op_eq_any (m : Nat) (a : Val) (c : Ctr) (hw : a.wf = true) (hp : Proper a) :
+    OpAgree m (Interp.opAny 0 m a c) (Ref.opAny a.erase) := opAny_agree m a c hw hp
+
+theorem ref_op_eq_all (m : Nat) (a : Val) (c : Ctr) (hw : a.wf = true) (hp : Proper a) :
+    OpAgree m (Interp.opAll 0 m a c) (Ref.opAll a.erase) := opAll_agree m a c hw hp
+
 /-! ### environment paths -/
 
 /-- **`path_eq`**: for every path atom (any bytes: leading zero bytes, empty, arbitrary length) and
